@@ -23,11 +23,43 @@ from __future__ import annotations
 import inspect
 import os
 import re
+import time as _real_time
+import types
 
 from hypothesis import strategies as st
 
 from vp.core.framework import Violation, case_hash, hyp_run, shard_seed
 from vp.harness import pcode_gen as G
+# imported here (not lazily) so that the parent process pays for the heavy imports (pint, pydantic/fastapi through sentry_sdk)
+# once and the forked shard workers inherit them
+from vp.harness import engine_h as H
+from vp.harness.sched import Baton, BatonLock
+import openpectus
+import openpectus.protocol.aggregator_messages as AM
+import openpectus.protocol.models as Mdl
+from openpectus.engine.engine import Engine
+from openpectus.engine.engine_message_handlers import EngineMessageHandlers
+import openpectus.lang.exec.events as _events_mod
+import openpectus.lang.exec.uod as _uod_mod
+
+
+class _NoStopwatch(types.ModuleType):
+    """`time` as seen by openpectus.lang.exec.events / uod: these modules time every event handler / command callback with
+    perf_counter and execute two more lines ("... is slow" warning, once) when the real duration exceeds 10 / 100 ms.  Real
+    durations (machine load, or a pre-emption inside a handler) must not change the number of line events, or switch
+    positions would not be reproducible.  perf_counter is frozen; everything else is the real module."""
+
+    def __init__(self):
+        super().__init__("time")
+
+    def perf_counter(self):
+        return 0.0
+
+    def __getattr__(self, name):
+        return getattr(_real_time, name)
+
+
+_events_mod.time = _uod_mod.time = _NoStopwatch()
 
 ID = "C40"
 LEVEL = "exploration"
@@ -146,7 +178,6 @@ def _tick_phases():
     """-> (code object of Engine.tick, {line number: phase label})"""
     if "v" in _phase_cache:
         return _phase_cache["v"]
-    from openpectus.engine.engine import Engine
     src, first = inspect.getsourcelines(Engine.tick)
     keyline = {}
     for off, text in enumerate(src):
@@ -219,9 +250,6 @@ class Exec:
     """the scenario's engine after its prefix; then exactly one step (serial order or schedule) and the post ticks"""
 
     def __init__(self, scen):
-        from vp.harness import engine_h as H
-        from vp.harness.sched import BatonLock
-        from openpectus.engine.engine_message_handlers import EngineMessageHandlers
         self.H = H
         self.scen = scen
         H._uuid_counter[0] = 0
@@ -247,8 +275,6 @@ class Exec:
         raise RuntimeError("C40 harness: a handler of EngineMessageHandlers awaited; the single-call model is wrong")
 
     def build_msg(self, req):
-        import openpectus.protocol.aggregator_messages as AM
-        import openpectus.protocol.models as Mdl
         e = self.h.engine
         k = req["k"]
         if k == "control":
@@ -363,8 +389,6 @@ class Exec:
         return self
 
     def step_sched(self, switches, profile=False):
-        from vp.harness.sched import Baton
-        import openpectus
         self._begin_step()
         prefix = os.path.dirname(os.path.abspath(openpectus.__file__)) + os.sep
         b = Baton(switches, prefix, phase_fn=_make_phase_fn(self.lock), profile=profile, locks=(self.lock,))
